@@ -169,4 +169,15 @@ def run(ctx):
             if callee(t).endswith("Option::ok_or") and t["dest"] == [0]:
                 n += 1
         ctx.floor("R2", "length-returning exits of load_spaces", n, 2)
+    # ---------------------------------------------------------------- R5
+    ctx.rule("R5", "every committed packet is charged against the credit: Constraints::commit subtracts len from credit_limit on every path")
+    cm = ctx.anchor("R5", "qconnection::path::util::Constraints::commit")
+    if cm:
+        ws = [(i, classify_write(cm, i, j)[0]) for (bb_, i, j, p_, rv_, ln_) in field_writes(prog, "Constraints", "credit_limit", bodies=[cm])]
+        subs = [i for i, k in ws if k in ("sub",) or k.startswith("call") or k.startswith("arith")]
+        allw = [i for i, k in ws]
+        ok = bool(allw) and cm.must_pass(cm.return_blocks(), set(allw))
+        ctx.ob("R5", "%s|credit_limit reduced on every path" % cm.short, ok, cm.where(),
+               "writes to credit_limit at %s (%s); every path to return passes one: %s — a packet that is not charged (e.g. "
+               "ACK-only, not in flight) lets the next coalesced packet use the full credit again" % (allw, [k for _, k in ws], ok))
     ctx.assume("Constraints::constrain cuts the buffer to min(balance, quota) (value-level; not decided)")
